@@ -35,6 +35,10 @@ type Term struct {
 	HasCond bool
 	CondN   int // cond is true for the first CondN evaluations of each loop entry
 	HasPost bool
+	// Shared: the loop is ONE seq value built once (no Delay around it), so the same value is
+	// re-run every time control reaches it again; its condition counter lives in the node and
+	// is reset when the condition turns false
+	Shared bool
 }
 
 func (t *Term) String() string {
@@ -50,6 +54,9 @@ func (t *Term) String() string {
 		}
 		if t.HasPost {
 			p = fmt.Sprintf("p%d", t.ID)
+		}
+		if t.Shared {
+			return fmt.Sprintf("FOR(%s,%s,%v)", c, p, t.A)
 		}
 		return fmt.Sprintf("for(%s,%s,%v)", c, p, t.A)
 	case "retval":
@@ -84,6 +91,7 @@ type budgetExceeded struct{}
 type logger struct {
 	ev     []string
 	budget int
+	shared map[int]int // condition counters of Shared loops, per run (node id -> evaluations since the last false)
 }
 
 func (l *logger) log(s string) {
@@ -116,6 +124,29 @@ func build(t *Term, l *logger) seq.Seq[int] {
 	case "combine":
 		return seq.Combine(build(t.A, l), build(t.B, l))
 	case "for":
+		if t.Shared {
+			var cond func() bool
+			var post func()
+			if t.HasCond {
+				cond = func() bool {
+					if l.shared == nil {
+						l.shared = map[int]int{}
+					}
+					n := l.shared[t.ID] + 1
+					ok := n <= t.CondN
+					if !ok {
+						n = 0
+					}
+					l.shared[t.ID] = n
+					l.log(fmt.Sprintf("c%d=%v", t.ID, ok))
+					return ok
+				}
+			}
+			if t.HasPost {
+				post = func() { l.log(fmt.Sprintf("p%d", t.ID)) }
+			}
+			return seq.For(cond, post, build(t.A, l))
+		}
 		// the counter lives in a Delay, like a compiled `i := 0; for ...` : fresh per loop entry
 		return seq.Delay(func() seq.Seq[int] {
 			n := 0
@@ -203,6 +234,7 @@ type refRun struct {
 	l        *logger
 	moves    int
 	maxMoves int
+	shared   map[int]int // condition counters of Shared loops (node id -> evaluations since last false)
 }
 
 // yield models the suspension: the consumer's MoveNext returns true with value v,
@@ -244,8 +276,18 @@ func (r *refRun) run(t *Term) (sig, int) {
 			}
 			first = false
 			if t.HasCond {
+				if t.Shared {
+					n = r.shared[t.ID]
+				}
 				n++
 				ok := n <= t.CondN
+				if t.Shared {
+					if ok {
+						r.shared[t.ID] = n
+					} else {
+						r.shared[t.ID] = 0
+					}
+				}
 				r.l.log(fmt.Sprintf("c%d=%v", t.ID, ok))
 				if !ok {
 					return sNormal, 0
@@ -275,7 +317,7 @@ func (r *refRun) run(t *Term) (sig, int) {
 
 func driveRef(t *Term, maxMoves, budget int) (ev []string) {
 	l := &logger{budget: budget}
-	r := &refRun{l: l, maxMoves: maxMoves}
+	r := &refRun{l: l, maxMoves: maxMoves, shared: map[int]int{}}
 	defer func() {
 		ev = l.ev
 		if x := recover(); x != nil {
@@ -325,6 +367,10 @@ func enumerate(size int, inLoop bool, emit func(*Term)) {
 		for n := 0; n <= 2; n++ {
 			emit(&Term{K: "for", A: a, HasCond: true, CondN: n})
 			emit(&Term{K: "for", A: a, HasCond: true, CondN: n, HasPost: true})
+			if n > 0 {
+				emit(&Term{K: "for", A: a, HasCond: true, CondN: n, HasPost: true, Shared: true})
+				emit(&Term{K: "for", A: a, HasCond: true, CondN: n, Shared: true})
+			}
 		}
 		if a.K == "delay" || a.K == "bind" || a.K == "bindrecv" {
 			emit(&Term{K: "for", A: a})
@@ -357,6 +403,7 @@ func randomTerm(rng *rand.Rand, size int, inLoop bool) *Term {
 	case 4, 5:
 		a := randomTerm(rng, size-1, true)
 		t := &Term{K: "for", A: a, HasCond: rng.Intn(4) != 0, CondN: rng.Intn(4), HasPost: rng.Intn(2) == 0}
+		t.Shared = t.HasCond && rng.Intn(3) == 0
 		if !t.HasCond && !(a.K == "delay" || a.K == "bind" || a.K == "bindrecv") {
 			t.A = &Term{K: "delay", A: a}
 		}
@@ -399,6 +446,46 @@ func features(t *Term, f map[string]bool, inLoop bool) {
 
 var c08seen = map[string]bool{}
 
+func hasShared(t *Term) bool {
+	if t == nil {
+		return false
+	}
+	return t.Shared || hasShared(t.A) || hasShared(t.B)
+}
+
+// driveTwice starts ONE seq value twice; every piece of loop state must be per run.
+func driveTwice(t *Term, maxMoves, budget int) (first, second []string) {
+	run := func(s seq.Seq[int], l *logger) (ev []string) {
+		defer func() {
+			ev = l.ev
+			if r := recover(); r != nil {
+				if _, ok := r.(budgetExceeded); ok {
+					ev = append(ev, "BUDGET")
+					return
+				}
+				ev = append(ev, fmt.Sprint("PANIC:", r))
+			}
+		}()
+		it := seq.Start(s)
+		for i := 0; i < maxMoves; i++ {
+			l.log("M>")
+			ok := it.MoveNext()
+			l.log(fmt.Sprintf("M<%v C=%d", ok, it.Current()))
+			if !ok {
+				l.log(fmt.Sprintf("R=%d", it.(seq.Generator[int]).Result()))
+				break
+			}
+		}
+		return l.ev
+	}
+	l := &logger{budget: budget}
+	s := build(t, l)
+	first = append([]string{}, run(s, l)...)
+	l.ev, l.budget = nil, budget
+	second = run(s, l)
+	return
+}
+
 func checkTerm(t *Term, origin string) {
 	n := 0
 	number(t, &n)
@@ -420,6 +507,14 @@ func checkTerm(t *Term, origin string) {
 	}
 	if len(res.Samples) < 3 && f["loop"] && f["combine"] && f["yield"] && f["post"] && (f["continue"] || f["break"]) {
 		res.Sample(map[string]any{"term": id, "real_trace": strings.Join(got, " "), "reference_trace": strings.Join(want, " ")})
+	}
+	if !hasShared(t) && len(got) < 120 {
+		a, b := driveTwice(t, maxMoves, budget)
+		res.Count("double_starts", 1)
+		if d := firstDiff(a, b); d >= 0 {
+			res.Violate("term2:"+id, "c08-second-start-differs", fmt.Sprintf("term %s: the same Seq value started twice\n first:  %s\n second: %s", id, strings.Join(a, " "), strings.Join(b, " ")),
+				map[string]any{"probe": "seqmodel", "mode": "c08", "only": id})
+		}
 	}
 	if d := firstDiff(want, got); d >= 0 {
 		res.Violate("term:"+id, "c08-trace", fmt.Sprintf("term %s\n reference: %s\n real:      %s\n first difference at event %d: want %q got %q",
